@@ -188,7 +188,13 @@ func runC05KeyUpdate(l *evlog.Log, c *evlog.Case, cs *c05kCase) {
 		from, to = to, from
 	}
 	inject := func(advance int) bool {
-		pkt, err := tap.ForgeShortPhase(pdir, advance, []byte{0x01}) // PING
+		payload := []byte{0x01} // PING
+		if cs.Probe == "update-twice-at-once" && advance == 1 {
+			// nothing that makes the victim send (no ack-eliciting frame): whatever the scheduling of the two
+			// deliveries, the victim has sent nothing in the first new phase when the second update arrives
+			payload = []byte{0, 0, 0, 0}
+		}
+		pkt, err := tap.ForgeShortPhase(pdir, advance, payload)
 		if err != nil {
 			viol("harness", "forge: %v", err)
 			return false
